@@ -165,7 +165,12 @@ func TestC04_Traffic(t *testing.T) {
 	if vkThorough() {
 		npk = 32
 	}
+	spent := vrBudget(t)
 	rapid.Check(t, func(t *rapid.T) {
+		if spent() {
+			vkClass(c04Unit, "skipped_wall_clock_budget")
+			return
+		}
 		c04Check(t, c04Unit, vrOpts{MergeBias: true, Geo: true, MaxRules: 10}, npk)
 	})
 }
